@@ -81,7 +81,7 @@ PROFILES = [
         "ops": ["or", "exists", "forall"],
         "arities": (2,),
         "qvars": ((("vb", "B"),), (("v", "A"),)),
-        "N": {"thorough": 2},
+        "N": {"quick": 1, "thorough": 2},
     },
     {
         "name": "num",
